@@ -436,4 +436,15 @@ example : (packAccount exAccount).length = 165 ∧ unpackAccount (packAccount ex
 example : WfMint ⟨none, 42, 9, true, some (List.replicate 32 4)⟩ :=
   { auth := (by intro k h; cases h), supply := (by decide), init := rfl, freeze := (by intro k h; cases h; decide) }
 
+set_option maxRecDepth 20000 in
+/-- The canned native-mint account data (regenerated from the source on every run) is exactly the
+    reference packing of the documented state — no authority, supply 0, 9 decimals, initialised, no
+    freeze authority — and parses to (0, 9) under both token programs. -/
+theorem C16_native_mint :
+    NATIVE_MINT_ACCOUNT_DATA = packMint ⟨none, 0, 9, true, none⟩ ∧
+    unpackMint NATIVE_MINT_ACCOUNT_DATA = some ⟨none, 0, 9, true, none⟩ ∧
+    genericMint NATIVE_MINT_ACCOUNT_DATA TOKEN_ID = .ok (some ⟨0, 9⟩) ∧
+    genericMint NATIVE_MINT_ACCOUNT_DATA TOKEN_2022_ID = .ok (some ⟨0, 9⟩) ∧
+    NATIVE_MINT_ID.length = 32 := by decide
+
 end C16
